@@ -28,6 +28,9 @@ CASE_TIMEOUT = {"quick": 40, "thorough": 120}
 RARE_CFG = 0.1     # share of cases run under rarely used option values (same results expected)
 
 
+ISO_INPUT = 0.05    # share of cases with an additional isolated free input
+
+
 def budget(tier):
     return 1500 if tier == "quick" else 15000
 
